@@ -183,6 +183,24 @@ class Tracer(SymEval):
             for _ in range(extra):
                 self.loops.pop()
 
+    def for_each_loop(self, desc, clo):
+        node = clo[1]
+        fake = {"k": "for", "pat": node["params"][0] if node.get("params") else {"k": "wild"}, "body": node["body"], "sp": node.get("sp")}
+        extra = 0
+        while desc[0] == "flat_map" and len(desc) == 3:
+            oh = "fm%d" % len(self.loops)
+            inner = self.apply(desc[2], [self.elem_value(desc[1], oh)])
+            if not (isinstance(inner, tuple) and inner and inner[0] == "iterdesc"):
+                break
+            self.loops.append(("iter", oh, desc[1]))
+            extra += 1
+            desc = inner[1]
+        try:
+            return self._e_for(fake, dict(clo[2]), desc)
+        finally:
+            for _ in range(extra):
+                self.loops.pop()
+
     def _e_for(self, n, env, desc):
         # a loop over a literal array (for (n, &k) in [a, b, c].iter().enumerate()) is the sequence of its bodies: unrolled, with
         # the index a constant, so that `if n == 0 {..} else {..}` selects its branch (constant propagation, as for inlined helpers)
@@ -212,7 +230,7 @@ class Tracer(SymEval):
             iv = var(idx_names[0]) if idx_names else var("_idx")
             ev = self.elem_value(desc[1], el_names[0] if el_names else "_el")
             val = ("tuple", [iv, ev])
-            loop = ("enumerate", idx_names[0] if idx_names else "_idx", desc[1])
+            loop = ("enumerate", idx_names[0] if idx_names else "_idx", desc[1], el_names[0] if el_names else "_el")
         elif desc[0] not in ("range", "map", "zip") and pat.get("k") == "ptuple" and \
                 all(p.get("k") == "bind" and "sub" not in p for p in pat["ps"]):
             nm = [p["name"].split("#")[0] for p in pat["ps"]]
@@ -268,6 +286,35 @@ class Tracer(SymEval):
         return ("tuple", [])
 
     def e_if(self, n, env):
+        cn = strip(n["c"])
+        if cn.get("k") == "letx" and "e" in n:
+            # `if let Some(p) = o { A } else { B }` is `match o { Some(p) => A, None => B }`: one normal form for both spellings
+            from .tables import pat_key
+            key = pat_key(cn["pat"])
+            is_some = isinstance(key, tuple) and len(key) == 2 and key[0] == "Some"
+            is_none = key == "None"
+            if is_some or is_none:
+                v = self.eval(cn["e"], env)
+                if isinstance(v, Poly):
+                    e2 = dict(env)
+                    try:
+                        self.bind(cn["pat"], v, e2)
+                    except Unsupported:
+                        pass
+                    m = app("matches", v, repr(key))
+                    self.guards.append((m, True))
+                    try:
+                        tv = self.eval(n["t"], e2)
+                    finally:
+                        self.guards.pop()
+                    self.guards.append((m, False))
+                    try:
+                        fv = self.eval(n["e"], dict(env))
+                    finally:
+                        self.guards.pop()
+                    some_v, none_v = (tv, fv) if is_some else (fv, tv)
+                    some_k = repr(key) if is_some else repr(("Some", "_"))
+                    return app("match", v, ((some_k, some_v), (repr("None"), none_v)))
         c = self.eval(n["c"], env)
         if isinstance(c, tuple) and c and c[0] == "bool":
             if c[1]:
@@ -404,7 +451,8 @@ class Tracer(SymEval):
             finally:
                 self.guards.pop()
             arms.append((repr(pat_key(a["pat"])), v))
-        return app("match", s, tuple(arms))
+        from .symx import build_match
+        return build_match(s, arms, guarded=any("guard" in a for a in n["arms"]))
 
     def e_ret(self, n, env):
         v = self.eval(n["e"], env) if "e" in n else ("tuple", [])
@@ -470,6 +518,11 @@ class Tracer(SymEval):
         return super().e_mcall(n, env)
 
     def call_fn(self, path, inst, args, n, env):
+        if path in ("std::iter::Iterator::for_each", "core::iter::Iterator::for_each") and len(args) == 2 and \
+                isinstance(args[0], tuple) and args[0] and args[0][0] == "iterdesc" and isinstance(args[1], tuple) and args[1] and args[1][0] == "closure":
+            # it.for_each(|x| body) is `for x in it { body }`
+            self.for_each_loop(args[0][1], args[1])
+            return ("tuple", [])
         if path and self.rx.fullmatch(path):
             self.events.append(Event(path, args, self.loops, self.guards, n.get("sp") if n else None, n, dict(env) if env else None))
             return app(path, *args)
